@@ -29,7 +29,7 @@ FAST = (
 
 
 def shards(tier, seed):
-    return layer_items() + [("F", 0, 1)]
+    return layer_items() + [("F", 0, 1), ("NP", 0, 2), ("NP", 1, 2)]
 
 
 def recipes(item, tier):
@@ -41,6 +41,10 @@ def recipes(item, tier):
             out.append(("bin", "*", ("c", 3), r))
             out.append(("bin", "+", r, ("bin", "**", ("var", "x"), ("c", 2))))
         return out
+    if item[0] == "NP":
+        from mc.layers import nested_powers
+
+        return nested_powers()[item[1]::item[2]]
     return layer_recipes(item, tier, A_leaves=(4, 4), B_nodes=(5, 5))
 
 
@@ -129,6 +133,11 @@ def check_recipe(r, tier, seed, rep=None, want=None):
         try:
             hf = autodiff.compile_hessian(c.e, V)
             hname = hf.__name__
+            from mc.callers import typed_point_mismatch
+
+            tm = typed_point_mismatch(hf, len(vn))
+            if tm is not None:
+                fails.add("point-dtype-leaks-into-hessian:" + hname, V=vlab, **tm)
             hf = InPlace(hf)
             if rep:
                 rep.transitions += 1
